@@ -47,9 +47,9 @@
 (*              otherId      snd's valid share for another identity        *)
 (*              otherEon     snd's share under another eon key             *)
 (*              swap         snd's VALID share for the identity of the     *)
-(*                           partner entry: the next entry (cyclically)    *)
-(*                           that carries a different identity; without    *)
-(*                           such an entry it is an otherId share.  In a   *)
+(*                           partner entry: the first entry in message     *)
+(*                           order that carries a different identity;      *)
+(*                           without one it is an otherId share.  In a     *)
 (*                           message <<[a,swap],[b,swap]>> the shares are  *)
 (*                           exactly the genuine ones of a and b, attached *)
 (*                           to the wrong identities: their sum equals the *)
